@@ -222,7 +222,7 @@ func runC13(c *an.Ctx) {
 						}
 					}
 				}
-			case name == "io.Copy":
+			case name == "io.Copy" || name == "(*bytes.Buffer).WriteTo":
 				found := false
 				for _, cc := range copyCalls {
 					if cc == call {
@@ -335,19 +335,26 @@ func runC13(c *an.Ctx) {
 	why := copyBad
 	if len(copyCalls) == 1 {
 		cc := copyCalls[0]
-		d, okd := an.Unparen(cc.Args[0]).(*ast.Ident)
-		s, oks := an.Unparen(cc.Args[1]).(*ast.Ident)
+		// io.Copy(dst, src) or src.WriteTo(dst) — for a *bytes.Buffer source io.Copy is that very call
+		dstE, srcE := cc.Args[0], ast.Expr(nil)
+		if len(cc.Args) == 2 {
+			srcE = cc.Args[1]
+		} else {
+			srcE = an.Receiver(cc)
+		}
+		d, okd := an.Unparen(dstE).(*ast.Ident)
+		s, oks := an.Unparen(srcE).(*ast.Ident)
 		if !(okd && an.ObjOf(hinfo, d) == writerVar) {
 			// the current writer is acceptable too: the restore defer has already run
-			if p.FieldKey(hinfo, cc.Args[0]) != "escapeeWriter.Writer" {
-				okCopy, why = false, "the buffer is copied to "+an.Str(cc.Args[0])+", not to the writer saved before the redirect"
+			if p.FieldKey(hinfo, dstE) != "escapeeWriter.Writer" {
+				okCopy, why = false, "the buffer is copied to "+an.Str(dstE)+", not to the writer saved before the redirect"
 			}
 		}
 		if !(oks && an.ObjOf(hinfo, s) == bufVar) {
 			okCopy, why = false, "the data copied to the writer is not the try buffer"
 		}
 	} else if why == "" {
-		why = fmt.Sprintf("%d io.Copy sites in the try handler (expected exactly one)", len(copyCalls))
+		why = fmt.Sprintf("%d sites copying the buffer to a writer in the try handler (expected exactly one)", len(copyCalls))
 	}
 	c.Check(okCopy, "C13.buffer", key+"/copy", handler.Pos(), "the buffer reaches the saved writer exactly once and only when nothing was recovered", why)
 	c.Check(catchBad == "" && nCatchMax <= 1 && len(catchCalls) == 1, "C13.buffer", key+"/catch-once", handler.Pos(), "the catch list runs only on the recovered path, at most once",
